@@ -21,7 +21,7 @@ META = {
                   "(strict); for every accepted rule/configuration that only uses properties the rule's serializer writes, "
                   "reading back the written JSON succeeds and gives the same name, properties and filters (roundtrip), and "
                   "two such configurations with the same written JSON are equal (injective); the round trip is REFUTED for "
-                  "convert_require (unreadable), remove_comments.except and remove_attribute.match (dropped), with "
+                  "convert_require (its required current/target are never written: unreadable, and not injective), with "
                   "witnesses replayed on the real code. On every run the model is compared with the compiled code on an "
                   "exhaustive rule x key x JSON-kind grid and on structured valid and corrupted configurations, and every "
                   "accepted configuration is serialized, read back, serialized again and run against its round-tripped "
@@ -214,9 +214,19 @@ def catalogue(tmpfile):
     cat["inject_global_value"] = inj
     for name in ("remove_assertions", "remove_debug_profiling"):
         cat[name] = [obj(), obj(preserve_arguments_side_effects=True), obj(preserve_arguments_side_effects=False)]
-    cat["remove_attribute"] = [obj(), obj(match=[]), obj(match=["native"]), obj(match=["^na", "checked"]), obj(match=["zzz"])]
-    cat["remove_comments"] = [obj(), obj(**{"except": []}), obj(**{"except": ["^ keep"]}),
-                              obj(**{"except": ["^ keep", "drop"]}), obj(**{"except": ["zzz"]})]
+    # pattern lists: order, duplicates, regex syntax with characters that need escaping in JSON or Lua, empty list
+    # (= no list), one element; a bare string instead of a list is not a documented form (see `legit`: rejected)
+    cat["remove_attribute"] = [
+        obj(), obj(match=[]), obj(match=["native"]), obj(match=["^na", "checked"]), obj(match=["checked", "^na"]),
+        obj(match=["zzz"]), obj(match=["native", "native"]), obj(match=["zzz", "native", "zzz"]),
+        obj(match=["^(native|checked)$"]), obj(match=["^nat\\w+$", "check.d"]), obj(match=["(?i)NATIVE"]),
+        obj(match=["[a-m]{3,}", "\"quoted\"", "it's"]), obj(match=[""])]
+    cat["remove_comments"] = [
+        obj(), obj(**{"except": []}), obj(**{"except": ["^ keep"]}), obj(**{"except": ["^ keep", "drop"]}),
+        obj(**{"except": ["drop", "^ keep"]}), obj(**{"except": ["zzz"]}), obj(**{"except": ["^ keep", "^ keep"]}),
+        obj(**{"except": ["zzz", "^ keep", "zzz"]}), obj(**{"except": ["^\\s*keep\\b"]}),
+        obj(**{"except": ["this\\.|\\(c\\)", "k[e]{2}p"]}), obj(**{"except": ["(?i)KEEP THIS"]}),
+        obj(**{"except": ["\"quoted\"", "it's", "a\\\\b"]}), obj(**{"except": [""]})]
     cat["remove_interpolated_string"] = [obj(), obj(strategy="string"), obj(strategy="tostring")]
     cat["rename_variables"] = [
         obj(), obj(globals=["$default"]), obj(globals=[]), obj(globals=["$default", "$roblox"]),
